@@ -13,6 +13,7 @@ from nautilus.bounds import Union, Ellipsoid  # noqa: E402
 N = int(sys.argv[2]) if len(sys.argv) > 2 else 3
 OPS = ['split', 'split_no', 'trim', 'sample']
 bad = []
+NPM = [0]
 
 
 def datasets():
@@ -32,6 +33,33 @@ def datasets():
     rng = np.random.default_rng(3)
     out.append(('single', rng.normal(size=(150, 3)) * 0.05 + 0.5, 40, 7, OPS,
                 N))
+    # three discs of different density, the sparsest one in the middle of the
+    # record list after the first splits (refused and successful trims that
+    # hit a record which is not the last one)
+    for k, (dens, npm_) in enumerate((((400, 40, 150), 15), ((300, 19, 19,
+                                                              300), 10))):
+        rng = np.random.default_rng(40 + k)
+        parts = []
+        for j, m in enumerate(dens):
+            rad = 0.02 if m >= 100 else (0.2 if m >= 30 else 0.01)
+            parts.append(rng.normal(size=(m, 2)) * rad + 3.0 * j)
+        out.append(('discs{}'.format(k), np.vstack(parts), npm_, 5 + k,
+                    ['split', 'trim'], max(N, 4)))
+    # a dense disc, a huge very sparse disc (the trim candidate) and a small
+    # double cluster with fewer than 2 * n_points_min points (never
+    # splittable); the record order after the splits depends on the seed
+    def disc(rng, n, r, c):
+        x = rng.normal(size=(n, 2))
+        x /= np.linalg.norm(x, axis=1)[:, None]
+        return x * (rng.uniform(size=n)[:, None]**0.5) * r + np.array(c)
+    for sd in (1, 2, 3, 4):
+        rng = np.random.default_rng(60 + sd)
+        pts = np.vstack([disc(rng, 250, 1.0, [0., 0.]),
+                         disc(rng, 40, 250.0, [2500., 0.]),
+                         disc(rng, 11, 0.04, [2500., 600.]),
+                         disc(rng, 10, 0.04, [2501.5, 600.])])
+        out.append(('sparse+double{}'.format(sd), pts, 11, sd,
+                    ['split', 'trim'], 5))
     return out
 
 
@@ -50,6 +78,19 @@ def check(u, tag, all_rows, trimmed):
         bad.append(dict(word=tag, what='records inconsistent', lens=[
             n, len(u.points_bounds), len(u.log_v_all), len(u.block)]))
         return False
+    for i in range(n):
+        if u.log_v_all[i] != u.bounds[i].log_v:
+            bad.append(dict(word=tag, what='log_v_all[{}] is not the volume of '
+                            'member {}'.format(i, i)))
+            return False
+        if not np.all(u.bounds[i].contains(u.points_bounds[i])):
+            bad.append(dict(word=tag, what='points_bounds[{}] are not inside '
+                            'member {}'.format(i, i)))
+            return False
+        if len(u.points_bounds[i]) < NPM[0]:
+            bad.append(dict(word=tag, what='member {} holds {} < n_points_min '
+                            'points'.format(i, len(u.points_bounds[i]))))
+            return False
     if rows_set(u.points_bounds) != sorted(
             r for r in all_rows if r not in trimmed):
         bad.append(dict(word=tag, what='points are not the construction '
@@ -59,6 +100,7 @@ def check(u, tag, all_rows, trimmed):
 
 nwords = 0
 for (name, pts, npm, seed, ops, nmax) in datasets():
+    NPM[0] = min(npm, len(pts))
     for n in range(1, nmax + 1):
         for word in itertools.product(ops, repeat=n):
             nwords += 1
